@@ -18,14 +18,17 @@ fn hist_str(h: &Histogram) -> String {
 fn hists_str(v: &[Histogram]) -> String {
     if v.is_empty() { "-".into() } else { v.iter().map(hist_str).collect::<Vec<_>>().join(",") }
 }
-fn random_hist(rng: &mut Rng, inner: Street, support: usize, samples: usize) -> Histogram {
+fn random_samples(rng: &mut Rng, inner: Street, support: usize, samples: usize) -> Vec<Abstraction> {
     let n = if inner == Street::Rive { 101 } else { inner.k() };
     let keys: Vec<usize> = (0..support).map(|_| rng.below(n as u64) as usize).collect();
     let mut v = vec![];
     for _ in 0..samples {
         v.push(Abstraction::from((inner, keys[rng.below(keys.len() as u64) as usize])));
     }
-    Histogram::from(v)
+    v
+}
+fn random_hist(rng: &mut Rng, inner: Street, support: usize, samples: usize) -> Histogram {
+    Histogram::from(random_samples(rng, inner, support, samples))
 }
 /// a full random symmetric metric over the buckets of `inner` (needed by Sinkhorn for learned streets)
 fn random_metric(rng: &mut Rng, inner: Street) -> Metric {
@@ -38,10 +41,28 @@ fn random_metric(rng: &mut Rng, inner: Street) -> Metric {
     }
     Metric::verif_from_entries(&m)
 }
-fn make_layer(rng: &mut Rng, street: Street, n: usize, k: usize, ties: bool) -> (Layer, Vec<Histogram>, Vec<Histogram>) {
+/// centroids in near-identical pairs (one sample in 400 moved): many points are then almost equidistant from
+/// two centroids, which is where an inexact or asymmetric distance decides the assignment
+fn near_pairs(rng: &mut Rng, inner: Street, k: usize) -> Vec<Histogram> {
+    let mut out = vec![];
+    while out.len() < k {
+        let s = 2 + rng.below(6) as usize;
+        let v = random_samples(rng, inner, s, 400);
+        let mut w = v.clone();
+        let (a, b) = (rng.below(400) as usize, rng.below(400) as usize);
+        w[a] = v[b];
+        out.push(Histogram::from(v));
+        if out.len() < k { out.push(Histogram::from(w)); }
+    }
+    out
+}
+fn make_layer(rng: &mut Rng, street: Street, n: usize, k: usize, ties: bool, near: bool) -> (Layer, Vec<Histogram>, Vec<Histogram>) {
     let inner = street.next();
     let points: Vec<Histogram> = (0..n).map(|_| { let s = 1 + rng.below(6) as usize; let c = 5 + rng.below(40) as usize; random_hist(rng, inner, s, c) }).collect();
     let mut kmeans: Vec<Histogram> = (0..k).map(|i| if ties && i % 2 == 1 { points[rng.below(n as u64) as usize].clone() } else { let s = 2 + rng.below(8) as usize; random_hist(rng, inner, s, 60) }).collect();
+    if near {
+        kmeans = near_pairs(rng, inner, k);
+    }
     if ties && k >= 2 {
         kmeans[k - 1] = kmeans[0].clone(); // two identical centroids: the first must win
     }
@@ -56,8 +77,12 @@ pub fn run(o: &Opts, _deck: &str) -> String {
     for li in 0..nl {
         let street = if li % 4 == 3 { Street::Flop } else { Street::Turn };
         let n = if street == Street::Flop { 10 + rng.below(30) as usize } else { 10 + rng.below(if li % 8 == 0 { 490 } else { 120 }) as usize };
-        let k = 2 + rng.below(15) as usize;
-        let (layer, points, kmeans) = make_layer(&mut rng, street, n, k, li % 3 == 0);
+        // one full-size turn layer (all 144 buckets: the derived metric then has all C(144,2) pair keys)
+        let k = if li == 1 { Street::Turn.k() } else { 2 + rng.below(15) as usize };
+        let (street, n) = if li == 1 { (Street::Turn, 150) } else { (street, n) };
+        let near = street == Street::Flop && li % 8 == 7;
+        let n = if near { 150 } else { n };
+        let (layer, points, kmeans) = make_layer(&mut rng, street, n, k, li % 3 == 0, near);
         let r = catch(|| {
             // the K x N matrix of distances the layer itself uses
             let d: Vec<String> = kmeans.iter().map(|c| points.iter().map(|p| layer.verif_emd(p, c).to_bits().to_string()).collect::<Vec<_>>().join(",")).collect();
@@ -79,7 +104,7 @@ pub fn run(o: &Opts, _deck: &str) -> String {
     for ii in 0..ni {
         let street = Street::Turn;
         let n = street.k() + 20 + rng.below(60) as usize;
-        let (layer, points, _) = make_layer(&mut rng, street, n, 2, false);
+        let (layer, points, _) = make_layer(&mut rng, street, n, 2, false, false);
         let run = |threads: usize| -> String {
             let pool = rayon::ThreadPoolBuilder::new().num_threads(threads).build().unwrap();
             pool.install(|| catch(|| hists_str(&layer.verif_init())).unwrap_or("P".into()))
